@@ -17,6 +17,52 @@ set_option autoImplicit false
 namespace Ruint.Div.GenTie
 open Ruint.Gen
 
+/-! ## the reciprocal bounds the two `u128` no-overflow steps rely on -/
+
+theorem recipSpec_facts (d : ℕ) (h1 : 2 ^ 63 ≤ d) (h2 : d < 2 ^ 64) :
+    recipSpec W d < 2 ^ 64 ∧ (2 ^ 64 + recipSpec W d) * d ≤ 2 ^ 128 - 1 := by
+  unfold recipSpec W
+  have hd0 : 0 < d := by omega
+  obtain ⟨V, hV⟩ : ∃ V, V = (2 ^ 64 * 2 ^ 64 - 1) / d := ⟨_, rfl⟩
+  rw [← hV]
+  have e := Nat.div_add_mod (2 ^ 64 * 2 ^ 64 - 1) d
+  have hm := Nat.mod_lt (2 ^ 64 * 2 ^ 64 - 1) hd0
+  rw [← hV] at e
+  have hVlo : 2 ^ 64 ≤ V := by
+    rw [hV, Nat.le_div_iff_mul_le hd0]
+    have : 2 ^ 64 * d ≤ 2 ^ 64 * (2 ^ 64 - 1) := Nat.mul_le_mul_left _ (by omega)
+    omega
+  have hVhi : V < 2 ^ 65 := by
+    rw [hV]; apply Nat.div_lt_of_lt_mul
+    have : 2 ^ 63 * 2 ^ 65 ≤ d * 2 ^ 65 := Nat.mul_le_mul_right _ h1
+    omega
+  constructor
+  · omega
+  · have : 2 ^ 64 + (V - 2 ^ 64) = V := by omega
+    rw [this, Nat.mul_comm]; omega
+
+theorem recip2Spec_facts (d : ℕ) (h1 : 2 ^ 127 ≤ d) (h2 : d < 2 ^ 128) :
+    recip2Spec W d < 2 ^ 64 ∧ (2 ^ 64 + recip2Spec W d) * d ≤ 2 ^ 192 - 1 := by
+  unfold recip2Spec W
+  have hd0 : 0 < d := by omega
+  obtain ⟨V, hV⟩ : ∃ V, V = (2 ^ 64 * 2 ^ 64 * 2 ^ 64 - 1) / d := ⟨_, rfl⟩
+  rw [← hV]
+  have e := Nat.div_add_mod (2 ^ 64 * 2 ^ 64 * 2 ^ 64 - 1) d
+  have hm := Nat.mod_lt (2 ^ 64 * 2 ^ 64 * 2 ^ 64 - 1) hd0
+  rw [← hV] at e
+  have hVlo : 2 ^ 64 ≤ V := by
+    rw [hV, Nat.le_div_iff_mul_le hd0]
+    have : 2 ^ 64 * d ≤ 2 ^ 64 * (2 ^ 128 - 1) := Nat.mul_le_mul_left _ (by omega)
+    omega
+  have hVhi : V < 2 ^ 65 := by
+    rw [hV]; apply Nat.div_lt_of_lt_mul
+    have : 2 ^ 127 * 2 ^ 65 ≤ d * 2 ^ 65 := Nat.mul_le_mul_right _ h1
+    omega
+  constructor
+  · omega
+  · have : 2 ^ 64 + (V - 2 ^ 64) = V := by omega
+    rw [this, Nat.mul_comm]; omega
+
 theorem q_bound (u d v : ℕ) (hu : u / 2 ^ 64 < d)
     (hvd : (2 ^ 64 + v) * d ≤ 2 ^ 128 - 1) : u + u / 2 ^ 64 * v < 2 ^ 128 := by
   obtain ⟨u1, hu1⟩ : ∃ u1, u1 = u / 2 ^ 64 := ⟨_, rfl⟩
@@ -137,5 +183,157 @@ theorem gen_div_3x2_eq (u21 u0 d v : ℕ) (hd : d < 2 ^ 128) (hv : v < 2 ^ 64) (
     by_cases c2 : R ≥ d
     · simp only [c2, if_true, Prod.mk.injEq, true_and]; omega
     · simp only [c2, if_false]
+
+/-! ## `reciprocal_mg10` -/
+
+theorem wadd_eq (a b : ℕ) : Rs.wadd 64 a b = Recip.wadd a b := rfl
+theorem wmul_eq (a b : ℕ) : Rs.wmul 64 a b = Recip.wmul a b := rfl
+theorem wshl_eq (a k : ℕ) : Rs.wshl 64 a k = Recip.wmul a (2 ^ k) := rfl
+theorem wsub_eq (a b : ℕ) (hb : b < 2 ^ 64) : Rs.wsub 64 a b = Recip.wsub a b := by
+  unfold Rs.wsub Recip.wsub Recip.M
+  rw [Nat.mod_eq_of_lt hb]
+theorem M_pos : 0 < Recip.M := by unfold Recip.M; norm_num
+theorem wmul_lt (a b : ℕ) : Recip.wmul a b < 2 ^ 64 := Nat.mod_lt _ M_pos
+theorem wadd_lt (a b : ℕ) : Recip.wadd a b < 2 ^ 64 := Nat.mod_lt _ M_pos
+theorem wsub_lt (a b : ℕ) : Recip.wsub a b < 2 ^ 64 := Nat.mod_lt _ M_pos
+
+theorem mul_hi_eq (a b : ℕ) (ha : a < 2 ^ 64) (hb : b < 2 ^ 64) : Gen.mul_hi a b = a * b / Recip.M := by
+  unfold Gen.mul_hi Rs.wmul Recip.M
+  simp only []
+  have h : a * b < 2 ^ 64 * 2 ^ 64 := Nat.mul_lt_mul'' ha hb
+  rw [Nat.mod_eq_of_lt (by omega : a * b < 2 ^ 128), Nat.mod_eq_of_lt]
+  apply Nat.div_lt_of_lt_mul; omega
+
+theorem muladd_hi_eq (a b c : ℕ) (ha : a < 2 ^ 64) (hb : b < 2 ^ 64) (hc : c < 2 ^ 64) :
+    Gen.muladd_hi a b c = (a * b + c) / Recip.M := by
+  unfold Gen.muladd_hi Rs.wmul Rs.wadd Recip.M
+  simp only []
+  have h : a * b ≤ (2 ^ 64 - 1) * (2 ^ 64 - 1) := Nat.mul_le_mul (by omega) (by omega)
+  rw [Nat.mod_eq_of_lt (by omega : a * b < 2 ^ 128), Nat.mod_eq_of_lt (by omega : a * b + c < 2 ^ 128),
+    Nat.mod_eq_of_lt]
+  apply Nat.div_lt_of_lt_mul; omega
+
+theorem table_eq : Gen.reciprocal_mg10_TABLE = Ruint.Gen.recipTable.toList := by rfl
+
+theorem table_get (i : ℕ) : Gen.reciprocal_mg10_TABLE.getD i 0 = Recip.TABLE[i]! := by
+  rw [table_eq]
+  unfold Recip.TABLE
+  simp [Array.getElem!_eq_getD, Array.getD_eq_getD_getElem?, List.getD_eq_getElem?_getD]
+
+
+theorem mask_sel (x d : ℕ) (hx : x < 2 ^ 64) :
+    x &&& Rs.wsub 64 0 (d % 2) = if d % 2 = 1 then x else 0 := by
+  rcases Nat.mod_two_eq_zero_or_one d with h | h
+  · rw [h]
+    have : Rs.wsub 64 0 0 = 0 := by unfold Rs.wsub; norm_num
+    rw [this]; simp
+  · rw [h]
+    have : Rs.wsub 64 0 1 = 2 ^ 64 - 1 := by unfold Rs.wsub; norm_num
+    rw [this, Nat.and_two_pow_sub_one_eq_mod, Nat.mod_eq_of_lt hx]; simp
+
+set_option maxRecDepth 8000 in
+theorem gen_reciprocal_eq (d : ℕ) (h1 : 2 ^ 63 ≤ d) (h2 : d < 2 ^ 64) :
+    Gen.reciprocal_mg10 d = reciprocal d := by
+  unfold Gen.reciprocal_mg10 reciprocal Recip.recipModel
+  simp only [wadd_eq, wmul_eq, wshl_eq, pow_one, Nat.and_one_is_mod]
+  have hi : Rs.wsub 64 (d / 2 ^ 55) 256 = d / 2 ^ 55 - 256 := by unfold Rs.wsub; omega
+  rw [hi, table_get]
+  generalize hv0 : Recip.TABLE[d / 2 ^ 55 - 256]! = v0
+  generalize hd40 : Recip.wadd 1 (d / 2 ^ 24) = d40
+  generalize hf : Recip.wmul (Recip.wmul v0 v0) d40 / 2 ^ 40 = f
+  have hflt : f < 2 ^ 64 := by rw [← hf]; exact lt_of_le_of_lt (Nat.div_le_self _ _) (wmul_lt _ _)
+  rw [wsub_eq _ f hflt, wsub_eq _ 1 (by norm_num)]
+  generalize hv1 : Recip.wsub (Recip.wsub (Recip.wmul v0 (2 ^ 11)) f) 1 = v1
+  have h60 : Recip.wmul 1 (2 ^ 60) = 2 ^ 60 := by
+    unfold Recip.wmul Recip.M; rw [Nat.one_mul]; exact Nat.mod_eq_of_lt (by norm_num)
+  rw [h60, wsub_eq _ (Recip.wmul v1 d40) (wmul_lt _ _)]
+  generalize hv2 : Recip.wadd (Recip.wmul v1 (2 ^ 13))
+      (Recip.wmul v1 (Recip.wsub (2 ^ 60) (Recip.wmul v1 d40)) / 2 ^ 47) = v2
+  have hv2lt : v2 < 2 ^ 64 := by rw [← hv2]; exact wadd_lt _ _
+  rw [mask_sel (v2 / 2) d (by omega)]
+  generalize hd63 : Recip.wadd d 1 / 2 = d63
+  rw [wsub_eq _ (Recip.wmul v2 d63) (wmul_lt _ _)]
+  generalize he : Recip.wsub (if d % 2 = 1 then v2 / 2 else 0) (Recip.wmul v2 d63) = e
+  have helt : e < 2 ^ 64 := by rw [← he]; exact wsub_lt _ _
+  rw [mul_hi_eq v2 e hv2lt helt]
+  generalize hv3 : Recip.wadd (v2 * e / Recip.M / 2) (Recip.wmul v2 (2 ^ 31)) = v3
+  have hv3lt : v3 < 2 ^ 64 := by rw [← hv3]; exact wadd_lt _ _
+  rw [muladd_hi_eq v3 d d hv3lt h2 h2]
+  have hb : (v3 * d + d) / Recip.M < 2 ^ 64 := by
+    unfold Recip.M
+    apply Nat.div_lt_of_lt_mul
+    have h : v3 * d ≤ (2 ^ 64 - 1) * (2 ^ 64 - 1) := Nat.mul_le_mul (by omega) (by omega)
+    omega
+  rw [wsub_eq _ _ hb, wsub_eq _ d h2]
+
+
+/-! ## `reciprocal_2_mg10` -/
+
+theorem reciprocal_lt (d : ℕ) : reciprocal d < 2 ^ 64 := by
+  unfold reciprocal Recip.recipModel
+  exact Nat.mod_lt _ (by unfold Recip.M; norm_num)
+
+theorem blk1_def (W d1 d0 v : ℕ) : R2.blk1 W d1 d0 v =
+    (if (d1 * v % W + d0) % W < d0 then
+      ((if (d1 * v % W + d0) % W ≥ d1 then (((v + W - 1) % W + W - 1) % W, (d1 * v % W + d0) % W - d1)
+          else ((v + W - 1) % W, (d1 * v % W + d0) % W)).1,
+       ((if (d1 * v % W + d0) % W ≥ d1 then (((v + W - 1) % W + W - 1) % W, (d1 * v % W + d0) % W - d1)
+          else ((v + W - 1) % W, (d1 * v % W + d0) % W)).2 + W - d1) % W)
+    else (v, (d1 * v % W + d0) % W)) := by
+  unfold R2.blk1; rfl
+
+theorem blk2_def (W d d0 v p : ℕ) : R2.blk2 W d d0 v p =
+    (if (p + v * d0 / W) % W < v * d0 / W then
+      if (p + v * d0 / W) % W * W + v * d0 % W ≥ d then ((v + W - 1) % W + W - 1) % W else (v + W - 1) % W
+    else v) := by
+  unfold R2.blk2; rfl
+
+theorem gen_reciprocal_2_eq (d : ℕ) (h1 : 2 ^ 127 ≤ d) (h2 : d < 2 ^ 128) :
+    Gen.reciprocal_2_mg10 d = reciprocal2 d := by
+  have e1 : d / 2 ^ 64 % 2 ^ 64 = d / 2 ^ 64 := Nat.mod_eq_of_lt (by omega)
+  have hrr : Gen.reciprocal_mg10 (d / 2 ^ 64) = Recip.recipModel (d / 2 ^ 64) :=
+    gen_reciprocal_eq (d / 2 ^ 64) (by omega) (by omega)
+  have hv : Recip.recipModel (d / 2 ^ 64) < 2 ^ 64 := reciprocal_lt (d / 2 ^ 64)
+  unfold Gen.reciprocal_2_mg10 reciprocal2 KFull.recip2Code
+  simp only []
+  rw [e1, hrr]
+  generalize Recip.recipModel (d / 2 ^ 64) = v at hv ⊢
+  generalize hd1 : d / 2 ^ 64 = d1
+  generalize hd0 : d % 2 ^ 64 = d0
+  rw [blk1_def, blk2_def]
+  rs_norm
+  have hd1a : 2 ^ 63 ≤ d1 := by omega
+  have hd1b : d1 < 2 ^ 64 := by omega
+  have hd0b : d0 < 2 ^ 64 := by omega
+  have hdd : d = d1 * 2 ^ 64 + d0 := by omega
+  generalize hm : d1 * v % 2 ^ 64 = m
+  have hmlt : m < 2 ^ 64 := by rw [← hm]; exact Nat.mod_lt _ (by norm_num)
+  generalize hp : (m + d0) % 2 ^ 64 = p
+  have hplt : p < 2 ^ 64 := by rw [← hp]; exact Nat.mod_lt _ (by norm_num)
+  clear hm hp hrr e1 hd1 hd0
+  have hor : ∀ a b : ℕ, a < 2 ^ 64 → b < 2 ^ 64 → a * 2 ^ 64 % 2 ^ 128 ||| b = a * 2 ^ 64 + b := by
+    intro a b ha hb
+    rw [Nat.mod_eq_of_lt (by omega), Nat.mul_comm]
+    exact (Nat.two_pow_add_eq_or_of_lt hb a).symm
+  have hvm : ∀ x : ℕ, (x + 2 ^ 64 - 1) % 2 ^ 64 < 2 ^ 64 := fun x => Nat.mod_lt _ (by norm_num)
+  by_cases c1 : p < d0
+  · by_cases c2 : p ≥ d1
+    · simp only [c1, c2, if_true]
+      have e : (p + 2 ^ 64 - d1) % 2 ^ 64 = p - d1 := by omega
+      rw [e]
+      have ht : (((v + 2 ^ 64 - 1) % 2 ^ 64 + 2 ^ 64 - 1) % 2 ^ 64) * d0 < 2 ^ 64 * 2 ^ 64 := Nat.mul_lt_mul'' (hvm _) hd0b
+      generalize (((v + 2 ^ 64 - 1) % 2 ^ 64 + 2 ^ 64 - 1) % 2 ^ 64) * d0 = t at ht ⊢
+      rw [Nat.mod_eq_of_lt (by omega : t < 2 ^ 128), Nat.mod_eq_of_lt (by omega : t / 2 ^ 64 < 2 ^ 64)]
+      rw [hor _ _ (Nat.mod_lt _ (by norm_num)) (Nat.mod_lt _ (by norm_num))]
+    · simp only [c1, c2, if_true, if_false]
+      have ht : ((v + 2 ^ 64 - 1) % 2 ^ 64) * d0 < 2 ^ 64 * 2 ^ 64 := Nat.mul_lt_mul'' (hvm _) hd0b
+      generalize ((v + 2 ^ 64 - 1) % 2 ^ 64) * d0 = t at ht ⊢
+      rw [Nat.mod_eq_of_lt (by omega : t < 2 ^ 128), Nat.mod_eq_of_lt (by omega : t / 2 ^ 64 < 2 ^ 64)]
+      rw [hor _ _ (Nat.mod_lt _ (by norm_num)) (Nat.mod_lt _ (by norm_num))]
+  · simp only [c1, if_false]
+    have ht : v * d0 < 2 ^ 64 * 2 ^ 64 := Nat.mul_lt_mul'' hv hd0b
+    generalize v * d0 = t at ht ⊢
+    rw [Nat.mod_eq_of_lt (by omega : t < 2 ^ 128), Nat.mod_eq_of_lt (by omega : t / 2 ^ 64 < 2 ^ 64)]
+    rw [hor _ _ (Nat.mod_lt _ (by norm_num)) (Nat.mod_lt _ (by norm_num))]
 
 end Ruint.Div.GenTie
